@@ -128,6 +128,14 @@ def unit_values(schema: Schema, u: Unit, name: str, level: str) -> List[Dict[str
     return out
 
 
+class _View:
+    """A universe seen through another set of message classes (same schema, same values)."""
+
+    def __init__(self, u, bp):
+        self.__dict__.update(u.__dict__)
+        self.bp = bp
+
+
 @dataclass
 class TypeCase:
     msg: Msg
@@ -187,6 +195,7 @@ class Universe:
         self._plans.append(("KS", ks, [u for u in units if not (u.card == "map" and u.kind.startswith("wrap:"))]))
         self.schema = Schema("vfu", (COLOR, SHADE), tuple(msgs))
         self.bp = build_bp(self.schema, "vf_universe_" + tier)
+        self._bp604 = None
         self.ref = build_ref(self.schema)
         self.types: List[TypeCase] = []
         for tag, m, us in self._plans:
@@ -264,6 +273,12 @@ class Universe:
 
     def count(self) -> int:
         return sum(len(t.values) for t in self.types)
+
+    def view604(self) -> "_View":
+        """The same universe with message classes annotated the typing.310 way."""
+        if self._bp604 is None:
+            self._bp604 = build_bp(self.schema, "vf_universe604_" + self.tier, style="pep604")
+        return _View(self, self._bp604)
 
 
 _CACHE: Dict[Tuple, Universe] = {}
